@@ -276,7 +276,9 @@ def _return_without_unit(unit, unit2=None):
 
 
 def _arctan2_unit(unit1, unit2):
-    return 1, NULL_UNIT
+    # a pure number, in the operands' registry (NULL_UNIT belongs to the
+    # default registry, which does not know custom symbols)
+    return 1, Unit(registry=unit1.registry)
 
 
 def _comparison_unit(unit1, unit2=None):
